@@ -20,6 +20,6 @@ def gen(tier, rng):
     yield from _auto.make_gen("C17")(tier, rng)
     for prop, k in (("C12", 2), ("C13", 2), ("C14", 2), ("C15", 3)):
         kk = k if tier == "quick" else 1
-        for i, (line, kind) in enumerate(_auto.make_gen(prop)(tier, rng)):
+        for i, (line, kind) in enumerate(_auto.make_gen(prop, also=False)(tier, rng)):
             if i % kk == 0 and not line.startswith(ONLY64):
                 yield (line, f"{prop}/{kind}")
